@@ -1,5 +1,5 @@
 # C15 - history independence / transparent grammar caching: the pool lock gate and component resets
-CLAIMS = {'resolver': 'GrammarResolver::getGrammar(description|namespace)/putGrammar as a path gate: use-cached-grammar off => pool and from-pool table never consulted (transparent); on => own bucket, from-pool table, pool in that order, only pool answers remembered; putGrammar offers to the pool only when caching is on', 'pool': 'XMLGrammarPoolImpl::cacheGrammar/orphanGrammar/clear/retrieveGrammar/getURIStringPool for every combination of lock flag, model flag, registry answer and argument: locked => registry never mutated + refused value; unlocked => documented effect exactly once'}
+CLAIMS = {'domreset': 'AbstractDOMParser::reset from an arbitrary prior state: every per-parse field back to its constructed value, an unadopted previous document kept for deletion exactly once', 'resolver': 'GrammarResolver::getGrammar(description|namespace)/putGrammar as a path gate: use-cached-grammar off => pool and from-pool table never consulted (transparent); on => own bucket, from-pool table, pool in that order, only pool answers remembered; putGrammar offers to the pool only when caching is on', 'pool': 'XMLGrammarPoolImpl::cacheGrammar/orphanGrammar/clear/retrieveGrammar/getURIStringPool for every combination of lock flag, model flag, registry answer and argument: locked => registry never mutated + refused value; unlocked => documented effect exactly once'}
 ASSUMPTIONS = ['grammar registry (RefHashTableOf<Grammar>) cut to a recorder with arbitrary answers', 'Grammar / XMLGrammarDescription stub subclasses', 'pool object built field by field']
 R = '_ZN11xercesc_4_014RefHashTableOfINS_7GrammarENS_12StringHasherEE'
 RK = '_ZNK11xercesc_4_014RefHashTableOfINS_7GrammarENS_12StringHasherEE'
@@ -8,8 +8,10 @@ HARNESSES = [
       cuts_everywhere=[RK + '11containsKeyEPKv', R + '3putEPvPS1_', R + '3getEPKv', R + '9orphanKeyEPKv', R + '9removeAllEv'], unwind=4, timeout=300),
  dict(name='resolver', entry='harness_resolver', srcs=['C15/resolver.cpp', 'C15/restables.cpp'], tus=['validators/common/GrammarResolver.cpp'],
       cuts_everywhere=[R + '3putEPvPS1_', R + '3getEPKv'], unwind=4, timeout=600),
+ dict(name='domreset', entry='harness_domreset', srcs=['C15/domreset.cpp', 'C15/domstubs15.cpp'], tus=['parsers/AbstractDOMParser.cpp', 'parsers/XercesDOMParser.cpp', 'framework/XMLBuffer.cpp', 'util/XMLString.cpp'],
+      cuts_everywhere=['_ZN11xercesc_4_015BaseRefVectorOfINS_15DOMDocumentImplEE10addElementEPS1_'], unwind=10, timeout=900, mem_gb=16),
 ]
 LEVEL_TEXT = ('Path-gate symbolic execution of the real grammar-pool entry points with the registry cut to a recorder: on EVERY path and for every stub outcome a locked pool is not modified and answers with the documented '
               'refusal, an unlocked pool performs the documented effect exactly once. (Together with C17/syncpool: the URI pool handed out while locked.)')
-LEVEL_NOTE = ('NOT claimed: equality of parse outcomes across parser histories (scanner reset completeness, progressive-scan tokens, document pool) - whole-system behaviour outside bounded symbolic '
+LEVEL_NOTE = ('NOT claimed: equality of parse outcomes across parser histories (scanner reset completeness - the reset of the DOM parser itself IS covered -, progressive-scan tokens, document pool) - whole-system behaviour outside bounded symbolic '
               'execution of this code base within the budget; lockPool/unlockPool side effects on the XSModel.')
